@@ -243,6 +243,15 @@ namespace logmessage::preprocessor {
         output.append(message);
         return output;
     }
+    std::string RecursiveMacro::formatMessage() const {
+        auto output = m_location.format();
+        const auto message = "Macro expands to itself (directly or through other macros): "sv;
+
+        output.reserve(output.length() + message.length() + macroname.length());
+        output.append(message);
+        output.append(macroname);
+        return output;
+    }
     std::string UnknownPragma::formatMessage() const
     {
         auto output = m_location.format();
